@@ -1350,6 +1350,31 @@ func keyedAccumulatorRule(x *chk.R, p *chk.Prog, pkgs ...string) int {
 				if !acc {
 					continue
 				}
+				// nothing is ever read back from the map in this function (no M[..] outside the left side of a store, no range
+				// over it): what is stored was filled before the store, within the iteration that made it - there is nothing
+				// accumulated under the key that the store could lose
+				readBack := false
+				stores := map[ast.Expr]bool{}
+				ast.Inspect(f.Body, func(nd ast.Node) bool {
+					switch y := nd.(type) {
+					case *ast.AssignStmt:
+						for _, l := range y.Lhs {
+							stores[ast.Unparen(l)] = true
+						}
+					case *ast.IndexExpr:
+						if sameM(y.X) && !stores[ast.Expr(y)] {
+							readBack = true
+						}
+					case *ast.RangeStmt:
+						if sameM(y.X) {
+							readBack = true
+						}
+					}
+					return true
+				})
+				if !readBack {
+					continue
+				}
 				n++
 				absent := chk.GOr(keyAbsent(f, g, sameM, sameK), g.GPat(true, "len(M[K]) == 0", chk.H("M", sameM), chk.H("K", sameK)))
 				x.Check("fresh-entry-only-when-absent:"+f.Name()+":"+types.ExprString(ix.X), s.Pos(), g.Dominated(s, absent), "",
@@ -1442,6 +1467,8 @@ func nodeExclusionRule(p *chk.Prog, r *chk.Report) {
 		rhs, idx := g.DefOf(id, g.FactSite(id))
 		return rhs != nil && idx == 1 && f.MatchWith("N.Labels[K]", rhs, chk.H("N", n), chk.H("K", constStr(f, "node.kubernetes.io/exclude-from-external-load-balancers"))) != nil
 	})
+	// or through the API machinery's own presence test: metav1.HasLabel(n.ObjectMeta, key) is `_, ok := Labels[key]`
+	has = chk.GSame(has, g.GPat(true, "metav1.HasLabel(N.ObjectMeta, K)", chk.H("N", n), chk.H("K", constStr(f, "node.kubernetes.io/exclude-from-external-load-balancers"))))
 	spec := chk.GAnd(g.GPat(false, "N == nil", chk.H("N", n)), has)
 	why := g.BoolResultIs(spec)
 	x.Check("IsNodeExcludedFromBalancers:label-presence", f.Pos(), why == "", "", "the exclusion of a node does not depend on the presence of the label alone: "+why)
@@ -2949,4 +2976,208 @@ func firstPresentKeyRule(x *chk.R, f *chk.Fn, key string) {
 		}
 	}
 	x.Check(key, f.Pos(), ok, "", "the lookup does not answer with the first key that is present (the stable annotation must win whenever the Service carries it)")
+}
+
+// assignsToField lists the plain assignments `v.F = E` to fields of the local v in f (outside function literals).
+type fieldAssign struct {
+	field string
+	value ast.Expr
+}
+
+func assignsToField(f *chk.Fn, v types.Object) []fieldAssign {
+	var out []fieldAssign
+	if v == nil {
+		return nil
+	}
+	chk.InspectNoLit(f.Body, func(n ast.Node) bool {
+		as, ok := n.(*ast.AssignStmt)
+		if !ok || len(as.Lhs) != len(as.Rhs) {
+			return true
+		}
+		for i, l := range as.Lhs {
+			if sel, isSel := ast.Unparen(l).(*ast.SelectorExpr); isSel {
+				if id, isId := ast.Unparen(sel.X).(*ast.Ident); isId && f.ObjOf(id) == v {
+					out = append(out, fieldAssign{sel.Sel.Name, as.Rhs[i]})
+				}
+			}
+		}
+		return true
+	})
+	return out
+}
+
+// valuesOnSuccess: what the local `id` holds at a use that is reached only with the error of the same tuple nil. It
+// covers the join that the expansion of a multi-result helper leaves behind,
+//
+//	r0, r1, rErr = 0, 0, err   (error exits)      r0, r1, rErr = H.Len, H.Type, nil   (success exit)
+//	a, b, e := r0, r1, rErr;  if e != nil { return ... };  ... a ...
+//
+// and the plain `a, b, e := h(..)` is left to the caller. The values of the component on the exits whose error
+// component is the nil literal are returned; ok is false when the shape is anything else or the use is not behind
+// `e == nil`.
+func valuesOnSuccess(f *chk.Fn, g *chk.Graph, id *ast.Ident) ([]ast.Expr, bool) {
+	use := g.FactSite(id)
+	var def *ast.AssignStmt
+	idx := -1
+	ast.Inspect(f.Body, func(n ast.Node) bool {
+		as, ok := n.(*ast.AssignStmt)
+		if !ok || len(as.Lhs) != len(as.Rhs) || len(as.Lhs) < 2 {
+			return true
+		}
+		for i, l := range as.Lhs {
+			if lid, isId := l.(*ast.Ident); isId && f.ObjOf(lid) == f.ObjOf(id) && f.ObjOf(id) != nil {
+				if def != nil && def != as {
+					idx = -2 // several definitions
+				}
+				if idx != -2 {
+					def, idx = as, i
+				}
+			}
+		}
+		return true
+	})
+	if def == nil || idx < 0 {
+		return nil, false
+	}
+	last := len(def.Lhs) - 1
+	eid, isId := def.Lhs[last].(*ast.Ident)
+	if !isId || !isErrorTyped(f, eid) || idx == last {
+		return nil, false
+	}
+	eobj := f.ObjOf(eid)
+	if !g.Dominated(use, g.GExprNil(true, func(e ast.Expr) bool { return f.ObjOf(e) == eobj && eobj != nil })) {
+		return nil, false
+	}
+	rv, isRv := ast.Unparen(def.Rhs[idx]).(*ast.Ident)
+	re, isRe := ast.Unparen(def.Rhs[last]).(*ast.Ident)
+	if !isRv || !isRe {
+		return nil, false
+	}
+	vobj, errObj := f.ObjOf(rv), f.ObjOf(re)
+	var vals []ast.Expr
+	okAll := true
+	ast.Inspect(f.Body, func(n ast.Node) bool {
+		as, ok := n.(*ast.AssignStmt)
+		if !ok || as == def {
+			return true
+		}
+		vi, ei := -1, -1
+		for i, l := range as.Lhs {
+			if lid, isL := l.(*ast.Ident); isL {
+				switch f.ObjOf(lid) {
+				case vobj:
+					vi = i
+				case errObj:
+					ei = i
+				}
+			}
+		}
+		if vi < 0 && ei < 0 {
+			return true
+		}
+		if vi < 0 || ei < 0 || len(as.Lhs) != len(as.Rhs) {
+			okAll = false // the two are not set together
+			return true
+		}
+		if f.IsNilLit(as.Rhs[ei]) {
+			vals = append(vals, as.Rhs[vi])
+		}
+		return true
+	})
+	if !okAll || len(vals) == 0 {
+		return nil, false
+	}
+	return vals, true
+}
+
+// isOrSucceedsAs: e matches pat (with checks), or e is a local whose every value on the success exits of the helper it
+// comes from matches it (valuesOnSuccess).
+func isOrSucceedsAs(f *chk.Fn, g *chk.Graph, pat string, checks ...chk.HoleCheck) func(ast.Expr) bool {
+	return func(e ast.Expr) bool {
+		if f.MatchWith(pat, e, checks...) != nil {
+			return true
+		}
+		id, isId := ast.Unparen(e).(*ast.Ident)
+		if !isId {
+			return false
+		}
+		vals, ok := valuesOnSuccess(f, g, id)
+		if !ok {
+			return false
+		}
+		for _, v := range vals {
+			if f.MatchWith(pat, v, checks...) == nil {
+				return false
+			}
+		}
+		return true
+	}
+}
+
+// nodeEventsRule (shared by C10, C04, C09): the speaker re-evaluates its node predicates only when a Node update reaches
+// SetNode. The event filter lets an update through whenever the node's network availability - as IsNetworkUnavailable
+// answers it, absent condition included - differs between the old and the new object (label changes are let through by
+// the library predicate next to it).
+func nodeEventsRule(p *chk.Prog, r *chk.Report) {
+	x := r.Rule("NODE-EVENTS", "B path (truth table)", "in controllers.NodeReconcilerPredicate the UpdateFunc of the network-availability predicate returns, for two Node objects, true exactly when k8snodes.IsNetworkUnavailable(old) != k8snodes.IsNetworkUnavailable(new); the predicate is combined by Or with predicate.LabelChangedPredicate", 2)
+	f := need(x, p, ctrlPkg, "", "NodeReconcilerPredicate")
+	if f == nil {
+		return
+	}
+	var lits []*ast.FuncLit
+	ast.Inspect(f.Body, func(n ast.Node) bool {
+		kv, ok := n.(*ast.KeyValueExpr)
+		if !ok {
+			return true
+		}
+		if k, isId := kv.Key.(*ast.Ident); isId && k.Name == "UpdateFunc" {
+			if l, isLit := kv.Value.(*ast.FuncLit); isLit {
+				lits = append(lits, l)
+			}
+		}
+		return true
+	})
+	if len(lits) != 1 {
+		x.Fail("predicate:update-func", f.Pos(), "expected one UpdateFunc literal in NodeReconcilerPredicate")
+		return
+	}
+	lf := f.LitFn(lits[0])
+	g := lf.Graph()
+	ev := isParamIdx(lf, 0)
+	asserted := func(field string, idx int) func(ast.Expr) bool {
+		return func(e ast.Expr) bool {
+			id, ok := ast.Unparen(e).(*ast.Ident)
+			if !ok {
+				return false
+			}
+			rhs, i := g.DefOf(id, g.FactSite(id))
+			if rhs == nil || i != idx {
+				return false
+			}
+			ta, isTA := ast.Unparen(rhs).(*ast.TypeAssertExpr)
+			return isTA && lf.MatchWith("E."+field, ta.X, chk.H("E", ev)) != nil
+		}
+	}
+	differ := chk.GSame(
+		g.GPat(true, "k8snodes.IsNetworkUnavailable(O) != k8snodes.IsNetworkUnavailable(N)", chk.H("O", asserted("ObjectOld", 0)), chk.H("N", asserted("ObjectNew", 0))),
+		g.GPat(true, "k8snodes.IsNetworkUnavailable(N) != k8snodes.IsNetworkUnavailable(O)", chk.H("O", asserted("ObjectOld", 0)), chk.H("N", asserted("ObjectNew", 0))))
+	spec := chk.GAnd(chk.GBool(true, asserted("ObjectOld", 1)), chk.GBool(true, asserted("ObjectNew", 1)), differ)
+	why := g.BoolResultIs(spec)
+	x.Check("predicate:update-passes-exactly-on-availability-change", lits[0].Pos(), why == "", "", "a Node update that changes the node's network availability can be filtered out (or the test is made on something other than IsNetworkUnavailable of the two objects: a condition that appears or disappears is a change): the speaker keeps the stale Node and goes on announcing from a node whose network is down: "+why)
+	orLabels := false
+	ast.Inspect(f.Body, func(n ast.Node) bool {
+		c, ok := n.(*ast.CallExpr)
+		if !ok {
+			return true
+		}
+		if fo, isF := f.Callee(c).(*types.Func); isF && fo.Name() == "Or" && fo.Pkg() != nil && strings.HasSuffix(fo.Pkg().Path(), "controller-runtime/pkg/predicate") {
+			for _, a := range c.Args {
+				if t := f.Info().TypeOf(a); t != nil && strings.HasSuffix(t.String(), "predicate.LabelChangedPredicate") {
+					orLabels = true
+				}
+			}
+		}
+		return true
+	})
+	x.Check("predicate:or-label-change", f.Pos(), orLabels, "", "label changes of the node are not let through next to the availability change")
 }
